@@ -535,7 +535,7 @@ def concat(a, b):
     return SSeq(z3.Concat(sa.t, sb.t), sa.elem, sa.py)
 
 
-def known(f, timeout_ms=400):
+def known(f, timeout_ms=80):
     """cheap entailment test against the current engine's path condition (False = not known)"""
     f = simplify_bool(f)
     if isinstance(f, bool):
@@ -637,8 +637,21 @@ def _nth_concat(ss, i):
         ln = 1 if z3.is_app_of(part, z3.Z3_OP_SEQ_UNIT) else L(P)
         last = n == len(parts) - 1
         rel = i - off
-        if last or known(rel < ln, 300):
-            if n == 0 or known(rel >= 0, 300):
+        if not is_sym(rel) and not is_sym(ln):
+            # purely syntactic step (concrete offset into a part of concrete length)
+            if rel < 0:
+                return None
+            if rel < ln:
+                if z3.is_app_of(part, z3.Z3_OP_SEQ_UNIT):
+                    e = part.arg(0)
+                    if ss.elem == "str":
+                        return SSeq(e, "char", "str")
+                    return SBool(e) if ss.elem == "bool" else SInt(e)
+                return nth(P, rel)
+            off = off + ln
+            continue
+        if last or known(rel < ln, 60):
+            if n == 0 or known(rel >= 0, 60):
                 if z3.is_app_of(part, z3.Z3_OP_SEQ_UNIT):
                     e = part.arg(0)
                     if ss.elem == "str":
@@ -646,7 +659,7 @@ def _nth_concat(ss, i):
                     return SBool(e) if ss.elem == "bool" else SInt(e)
                 return nth(P, rel)
             return None
-        if not known(rel >= ln, 300):
+        if not known(rel >= ln, 60):
             return None
         off = off + ln
     return None
